@@ -122,3 +122,139 @@ for _i, (_e, _d, _pd, _pl) in enumerate(STRUCTS):
         id=f"struct.decode.{_i}", func=DT + "DataType.decode", call="case[0].decode(buffer)", bind={"case": [_case]},
         params={"buffer": P.oneof(P.bytes(), P.stream(P.bytes()), P.const("None"), P.any())},
         ref="spec.cip_codec.decode(case[1], buffer)", compare=["result", "exc", "stream:buffer"], props=["C06", "C07", "C08"])
+
+# ---- the T[n] spelling builds the array of exactly that element type, however many array types were built before
+FS = "pycomm3.custom_types.FixedSizeString"
+contract(
+    id="array.subscript.distinct_types", func=DT + "_DataTypeMeta.__getitem__", call="T2[2]",
+    bind={"pair": [f"({FS}(8), {FS}(4))", f"({DT}n_bytes(2).__class__, {DT}n_bytes(5).__class__)",
+                   f"({S}({DT}UINT('a')), {S}({DT}UINT('a'), {DT}UINT('b')))"]},
+    setup=["T1 = pair[0]", "T2 = pair[1]", "first = T1[2]"],
+    ensures=["result.element_type is T2", "result.length == 2", "first.element_type is T1", "result is not first"],
+    props=["C06"])
+
+
+# ---- Array / Struct over an ABSTRACT element type (modular: checked against the element's codec contract, not a body) ----
+# spec.abstract.element_type is the assumed contract every concrete type is separately proved to satisfy (codec_elementary,
+# the string / fixed-string / structtag contracts): these obligations therefore hold for every element type, the instance
+# bound that remains is the array length / member count.
+AB = "spec.abstract."
+for _n in (0, 1, 2, 3):
+    contract(
+        id=f"array.abstract.decode.{_n}", func=A + ".<locals>.Array.decode", call="T.decode(buffer)",
+        bind={"minsize": ["0", "1"]}, params={"before": P.bytes(), "rest": P.bytes()}, nondet=True,
+        setup=[f"E = {AB}element_type('E', minsize)", f"T = {A}({_n}, E)", "data = before + rest", "skip = len(before)",
+               "buffer = io.BytesIO(data)", "junk = buffer.read(skip)"],
+        ensures=[f"len(E.calls) == {_n}", f"{AB}contiguous_ok(E.calls, skip)", "result == [c[3] for c in E.calls]",
+                 f"buffer.tell() == {AB}end_of(E.calls, skip)"],
+        raises_only=["pycomm3.exceptions.DataError"],
+        ensures_exc=["implies(isinstance(exc, pycomm3.exceptions.BufferEmptyError), skip == len(data) and buffer.tell() == skip)",
+                     "len(E.calls) >= 1 and E.calls[-1][2] != 'ok'",
+                     f"{AB}contiguous_ok(E.calls[:-1], skip)"],
+        props=["C06", "C07", "C08"], max_paths=4000)
+    for _k in sorted({max(_n - 1, 0), _n, _n + 1}):
+        contract(
+            id=f"array.abstract.encode.{_n}.{_k}", func=A + ".<locals>.Array.encode", call="T.encode(values)",
+            params={"values": P.list(P.int(), _k)}, nondet=True,
+            setup=[f"E = {AB}element_type('E', 0)", f"T = {A}({_n}, E)"],
+            ensures=[f"{_k} >= {_n}", f"result == b''.join(E.image(v) for v in values[:{_n}])",
+                     f"[e[0] for e in E.encodes] == values[:{_n}]", "all(e[1] for e in E.encodes)"],
+            raises_only=["pycomm3.exceptions.DataError"],
+            ensures_exc=[f"{_k} < {_n} or (len(E.encodes) >= 1 and not E.encodes[-1][1])"],
+            props=["C06", "C07", "C08"], max_paths=4000)
+# length-prefixed over an abstract element (elements of at least one byte; buffers <= 6 bytes after the prefix)
+contract(
+    id="array.abstract.prefixed.decode", func=A + ".<locals>.Array.decode", call="T.decode(buffer)",
+    params={"data": P.bytes(minlen=1, maxlen=5)}, nondet=True,
+    setup=[f"E = {AB}element_type('E', 1)", f"T = {A}({DT}USINT, E)", "buffer = io.BytesIO(data)"],
+    ensures=["len(E.calls) == data[0]", f"{AB}contiguous_ok(E.calls, 1)", "result == [c[3] for c in E.calls]",
+             f"buffer.tell() == {AB}end_of(E.calls, 1)"],
+    raises_only=["pycomm3.exceptions.DataError"],
+    ensures_exc=["not isinstance(exc, pycomm3.exceptions.BufferEmptyError)", "len(E.calls) >= 1 and E.calls[-1][2] != 'ok'",
+                 "len(E.calls) <= data[0]"],
+    props=["C06", "C07", "C08"], max_paths=20000)
+for _k in (0, 1, 3):
+    contract(
+        id=f"array.abstract.prefixed.encode.{_k}", func=A + ".<locals>.Array.encode", call="T.encode(values)",
+        params={"values": P.list(P.int(), _k)}, nondet=True,
+        setup=[f"E = {AB}element_type('E', 0)", f"T = {A}({DT}USINT, E)"],
+        ensures=[f"result == bytes([{_k}]) + b''.join(E.image(v) for v in values)", "all(e[1] for e in E.encodes)"],
+        raises_only=["pycomm3.exceptions.DataError"], ensures_exc=["len(E.encodes) >= 1 and not E.encodes[-1][1]"],
+        props=["C06", "C07", "C08"], max_paths=4000)
+# unbounded array over an abstract element of at least one byte: decodes exactly the elements the buffer holds
+contract(
+    id="array.abstract.unbounded.decode", func=A + ".<locals>.Array.decode", call="T.decode(buffer)",
+    params={"data": P.bytes(maxlen=4)}, nondet=True,
+    setup=[f"E = {AB}element_type('E', 1)", f"T = {A}(None, E)", "buffer = io.BytesIO(data)"],
+    ensures=["len(E.calls) >= 1 and E.calls[-1][2] == 'empty'", f"{AB}contiguous_ok(E.calls[:-1], 0)",
+             "result == [c[3] for c in E.calls[:-1]]", "buffer.tell() == len(data)"],
+    raises_only=["pycomm3.exceptions.DataError"],
+    ensures_exc=["not isinstance(exc, pycomm3.exceptions.BufferEmptyError)", "len(E.calls) >= 1 and E.calls[-1][2] == 'error'"],
+    props=["C06", "C08"], max_paths=20000)
+
+# structures over abstract members: every member decoded once, front to back, each where the previous one ended
+_MEMBERS = {0: [], 1: ["'a'"], 2: ["'a'", "'b'"], 3: ["'a'", "None", "'c'"]}
+for _k, _names in _MEMBERS.items():
+    _mk = [f"E{i} = {AB}element_type('E{i}', minsize)" for i in range(_k)]
+    _ms = ", ".join(f"E{i}({nm})" if nm != "None" else f"E{i}" for i, nm in enumerate(_names))
+    _types = "[" + ", ".join(f"E{i}" for i in range(_k)) + "]"
+    _named = "{" + ", ".join(f"{nm}: E{i}.calls[0][3]" for i, nm in enumerate(_names) if nm != "None") + "}"
+    contract(
+        id=f"struct.abstract.decode.{_k}", func=DT + "DataType.decode", call="T.decode(buffer)",
+        bind={"minsize": ["0", "1"]}, params={"before": P.bytes(), "rest": P.bytes()}, nondet=True,
+        setup=_mk + [f"T = {S}({_ms})", f"types = {_types}", "data = before + rest", "skip = len(before)",
+                     "buffer = io.BytesIO(data)", "junk = buffer.read(skip)"],
+        ensures=[f"len({AB}member_calls(types)) == {_k}", f"{AB}contiguous_ok({AB}member_calls(types), skip)",
+                 f"result == {_named}", f"buffer.tell() == {AB}end_of({AB}member_calls(types), skip)"],
+        raises_only=["pycomm3.exceptions.DataError"],
+        ensures_exc=["implies(isinstance(exc, pycomm3.exceptions.BufferEmptyError), skip == len(data) and buffer.tell() == skip)",
+                     f"{AB}called_in_order(types)", f"len({AB}member_calls(types)) >= 1 and {AB}member_calls(types)[-1][2] != 'ok'",
+                     f"{AB}contiguous_ok({AB}member_calls(types)[:-1], skip)"],
+        props=["C06", "C07", "C08"], max_paths=4000)
+    _mk0 = [f"E{i} = {AB}element_type('E{i}', 0)" for i in range(_k)]
+    _join = "b''.join([" + ", ".join(f"E{i}.image(values[{i}])" for i in range(_k)) + "])"
+    for _m in sorted({max(_k - 1, 0), _k, _k + 1}):
+        contract(
+            id=f"struct.abstract.encode.seq.{_k}.{_m}", func=DT + "DataType.encode", call="T.encode(values)",
+            bind={"form": ["list", "tuple"]}, params={"vals": P.list(P.int(), _m)}, nondet=True,
+            setup=_mk0 + [f"T = {S}({_ms})", "values = form(vals)"],
+            ensures=[f"{_m} == {_k}", f"result == {_join}"] + [f"E{i}.encodes == [(values[{i}], True)]" for i in range(_k)],
+            raises_only=["pycomm3.exceptions.DataError"],
+            ensures_exc=[f"{_m} != {_k} or any(len(t.encodes) == 1 and not t.encodes[0][1] for t in {_types})"],
+            props=["C06", "C07", "C08"], max_paths=4000)
+    if "None" not in _names:
+        _dict = "{" + ", ".join(f"{nm}: vals[{i}]" for i, nm in enumerate(_names)) + "}"
+        contract(      # the dict form gives the same bytes as the positional form: both equal the concatenated member images
+            id=f"struct.abstract.encode.dict.{_k}", func=DT + "DataType.encode", call="T.encode(values)",
+            params={"vals": P.list(P.int(), _k)}, nondet=True,
+            setup=_mk0 + [f"T = {S}({_ms})", f"values = {_dict}"],
+            ensures=["result == " + _join.replace("values[", "vals[")] + [f"E{i}.encodes == [(vals[{i}], True)]" for i in range(_k)],
+            raises_only=["pycomm3.exceptions.DataError"],
+            ensures_exc=[f"any(len(t.encodes) == 1 and not t.encodes[0][1] for t in {_types})"],
+            props=["C06", "C07", "C08"], max_paths=4000)
+
+# ---- arrays of bit strings (BOOL arrays of a Logix controller are DWORD arrays): one flat list of bools, 8*width per element
+for _bt, _w in (("BYTE", 8), ("DWORD", 32)):
+    for _n in (0, 1, 2):
+        for _k in sorted({max(_n * _w - 1, 0), _n * _w, _n * _w + 1, (_n + 1) * _w}):
+            contract(
+                id=f"array.bits.fixed.encode.{_bt}.{_n}.{_k}", func=A + ".<locals>.Array.encode", call="case[0].encode(values)",
+                bind={"case": [_arr(_n, DT + _bt, repr(_bt))]}, params={"values": P.list(P.bool(), _k)},
+                ref="spec.cip_codec.encode(case[1], values)", props=["C06", "C07", "C08"])
+        contract(
+            id=f"array.bits.fixed.decode.{_bt}.{_n}", func=A + ".<locals>.Array.decode", call="case[0].decode(buffer)",
+            bind={"case": [_arr(_n, DT + _bt, repr(_bt))]}, params={"buffer": P.oneof(P.bytes(), P.stream(P.bytes()))},
+            ref="spec.cip_codec.decode(case[1], buffer)", compare=["result", "exc", "stream:buffer"], props=["C06", "C07", "C08"])
+    for _k in sorted({0, _w - 1, _w, _w + 1, 2 * _w}):
+        for _lt in (None, "USINT"):
+            contract(
+                id=f"array.bits.{'unbounded' if _lt is None else 'prefixed'}.encode.{_bt}.{_k}", func=A + ".<locals>.Array.encode",
+                call="case[0].encode(values)", bind={"case": [_arr(_lt, DT + _bt, repr(_bt))]}, params={"values": P.list(P.bool(), _k)},
+                ref="spec.cip_codec.encode(case[1], values)", props=["C06", "C07", "C08"])
+    for _lt in (None, "USINT"):
+        contract(
+            id=f"array.bits.{'unbounded' if _lt is None else 'prefixed'}.decode.{_bt}", func=A + ".<locals>.Array.decode",
+            call="case[0].decode(buffer)", bind={"case": [_arr(_lt, DT + _bt, repr(_bt))]},
+            params={"buffer": P.oneof(P.bytes(maxlen=2 * _w // 8 + 2), P.stream(P.bytes(maxlen=2 * _w // 8 + 2)))},
+            ref="spec.cip_codec.decode(case[1], buffer)", compare=["result", "exc", "stream:buffer"], props=["C06", "C07", "C08"],
+            note="buffer length bounded (two elements and a bit); all contents")
